@@ -1167,6 +1167,11 @@ impl<'a> Exec<'a> {
             let wide = ((b[0] as u32) << 14) | ((b[2] as u32) << 7) | b[1] as u32;
             let acc = api(L::newtype_conversions, || crate::surface::conversions(b, wide))?;
             std::hint::black_box(acc);
+            if (b[1] as u32 + b[2] as u32) % 4 == 0 {
+                // a quarter of the deliveries: 72 formatting calls each are not cheap at opt-level 0
+                let n = api(L::telemetry_display_fromstr, || crate::surface::format_specs(b))?;
+                std::hint::black_box(n);
+            }
             let same = api(L::factory_ctor, || crate::surface::rebuild_and_read(b))?;
             if !same {
                 self.p.factory_rebuild_mismatch += 1;
